@@ -2,6 +2,7 @@
 use crate::common::*;
 use crate::gen::*;
 use fnv::FnvHasher;
+use probminhash::superminhasher::NoHashHasher;
 use probminhash::densminhash::{OptDensMinHash, RevOptDensMinHash};
 use rand::Rng as _;
 use rayon::prelude::*;
@@ -23,7 +24,10 @@ trait Dens {
 
 macro_rules! impl_dens {
     ($t:ident, $f:ty) => {
-        impl Dens for $t<$f, u64, FnvHasher> {
+        impl_dens!($t, $f, FnvHasher);
+    };
+    ($t:ident, $f:ty, $h:ty) => {
+        impl Dens for $t<$f, u64, $h> {
             fn sketch(&mut self, d: u64) {
                 $t::sketch(self, &d)
             }
@@ -50,16 +54,21 @@ impl_dens!(OptDensMinHash, f32);
 impl_dens!(OptDensMinHash, f64);
 impl_dens!(RevOptDensMinHash, f32);
 impl_dens!(RevOptDensMinHash, f64);
+impl_dens!(OptDensMinHash, f64, NoHashHasher);
+impl_dens!(RevOptDensMinHash, f64, NoHashHasher);
 
 fn make(kind: usize, m: usize) -> Box<dyn Dens> {
     match kind {
         0 => Box::new(OptDensMinHash::<f32, u64, FnvHasher>::new(m, Default::default())),
         1 => Box::new(OptDensMinHash::<f64, u64, FnvHasher>::new(m, Default::default())),
         2 => Box::new(RevOptDensMinHash::<f32, u64, FnvHasher>::new(m, Default::default())),
-        _ => Box::new(RevOptDensMinHash::<f64, u64, FnvHasher>::new(m, Default::default())),
+        3 => Box::new(RevOptDensMinHash::<f64, u64, FnvHasher>::new(m, Default::default())),
+        4 => Box::new(OptDensMinHash::<f64, u64, NoHashHasher>::new(m, Default::default())),
+        _ => Box::new(RevOptDensMinHash::<f64, u64, NoHashHasher>::new(m, Default::default())),
     }
 }
-const KNAMES: [&str; 4] = ["OptDensMinHash<f32>", "OptDensMinHash<f64>", "RevOptDensMinHash<f32>", "RevOptDensMinHash<f64>"];
+const KNAMES: [&str; 6] = ["OptDensMinHash<f32>", "OptDensMinHash<f64>", "RevOptDensMinHash<f32>", "RevOptDensMinHash<f64>", "OptDensMinHash<f64,NoHashHasher>", "RevOptDensMinHash<f64,NoHashHasher>"];
+const NKINDS: u64 = 6;
 
 // ---- logical-step termination monitor
 thread_local! {
@@ -125,12 +134,20 @@ fn history(kind: usize, m: usize, seed: u64, len: usize) -> HistOut {
     let mut out = HistOut { nops: 0, nfinish: 0, nempty_finish: 0, fail: None, ops: vec![], triples: vec![], steps: 0 };
     probminhash::verif::set_densify_callback(Some(densify_cb));
     TOTAL_STEPS.with(|c| c.set(0));
-    let bh = BuildHasherDefault::<FnvHasher>::default();
+    let nohash = kind >= 4;
+    let hash_of = |d: u64| -> u64 {
+        if nohash {
+            BuildHasherDefault::<NoHashHasher>::default().hash_one(d)
+        } else {
+            BuildHasherDefault::<FnvHasher>::default().hash_one(d)
+        }
+    };
     let mut real = make(kind, m);
     let mut twin = make(kind, m);
     let mut streamed: HashSet<u64> = HashSet::new(); // hashes of items streamed since the last reinit
     let npool = rng.random_range(1..60);
-    let pool = fresh_ids(&mut rng, npool, 0);
+    // with NoHashHasher the item value is the hash: stream adversarial hashes (u64::MAX is the initial value of the hash array)
+    let pool = if nohash { ids_with_specials(&mut rng, npool) } else { fresh_ids(&mut rng, npool, 0) };
     macro_rules! fail {
         ($k:expr, $w:expr) => {{
             out.fail = Some(($k.to_string(), $w));
@@ -147,7 +164,7 @@ fn history(kind: usize, m: usize, seed: u64, len: usize) -> HistOut {
             let d = if rng.random_range(0..3) == 0 { pool[rng.random_range(0..pool.len())] } else { fresh_ids(&mut rng, 1, 0)[0] };
             real.sketch(d);
             twin.sketch(d);
-            streamed.insert(bh.hash_one(d));
+            streamed.insert(hash_of(d));
             if out.ops.len() < 40 {
                 out.ops.push(json!(["sketch", d]));
             }
@@ -167,7 +184,7 @@ fn history(kind: usize, m: usize, seed: u64, len: usize) -> HistOut {
             }
             for d in &ds {
                 twin.sketch(*d);
-                streamed.insert(bh.hash_one(*d));
+                streamed.insert(hash_of(*d));
             }
             let pre = twin.raw();
             let nothing = pre.2.iter().all(|x| !x);
@@ -297,7 +314,7 @@ pub fn run(rep: &mut Report) {
         .filter(|i| only.as_ref().map(|c| c == &format!("hist{}", i) || c == "hist").unwrap_or(true))
         .map(|i| {
             let mut rng = rng_from(mix(&[seed, i, 1]));
-            let kind = (i % 4) as usize;
+            let kind = (i % NKINDS) as usize;
             let m = match rng.random_range(0..8) {
                 0 => 1,
                 1 => 2,
@@ -314,6 +331,7 @@ pub fn run(rep: &mut Report) {
     let mut u32map: HashMap<u64, u32> = HashMap::new();
     let mut f32map: HashMap<u64, u64> = HashMap::new();
     let mut f64map: HashMap<u64, u64> = HashMap::new();
+    let mut f64nohash_map: HashMap<u64, u64> = HashMap::new();
     let mut total_steps = 0u64;
     for (i, kind, m, r) in res {
         let cell = format!("hist{}", i);
@@ -340,7 +358,7 @@ pub fn run(rep: &mut Report) {
                             rep.violation("C09/u32-view-not-a-function-of-u64-view", &cell, format!("hash {:#x} is shown as {:#x} and as {:#x} in the u32 view", u, prev, w), json!({"hash": u}));
                         }
                     }
-                    let fm = if kind % 2 == 0 { &mut f32map } else { &mut f64map };
+                    let fm = if kind == 0 || kind == 2 { &mut f32map } else if kind < 4 { &mut f64map } else { &mut f64nohash_map };
                     if let Some(prev) = fm.insert(u, f) {
                         if prev != f {
                             rep.violation("C09/float-view-not-a-function-of-u64-view", &cell, format!("hash {:#x} carries float value bits {:#x} and {:#x} in two sketches", u, prev, f), json!({"hash": u}));
